@@ -40,3 +40,11 @@ package tracetransform
 //@   ensures sd != nil && !sd.Parent().spanID.IsValid() ==> len(s.ParentSpanId) == 0
 //@   ensures sd != nil && sd.Parent().spanID.IsValid() ==> len(s.ParentSpanId) == 8 && (forall i in 0 .. 8 : s.ParentSpanId[i] == sd.Parent().spanID[i])
 //@   ensures sd != nil ==> s.Status != nil && s.Status.Message == sd.Status().Description
+
+// grouping: every span is filed under the (resource identity, full instrumentation scope - name, version, schema URL and
+// attributes) of that very span, and converted exactly once
+//@ func Spans(sdl []tracesdk.ReadOnlySpan) (rss []*tracepb.ResourceSpans)
+//@   unchecked no-panic,frame map-of-pointer values loaded inside the loop need a quantified invariant over a function-local key type
+//@   ensures len(sdl) == 0 ==> len(rss) == 0
+//@   assert@call span#1 : sd != nil && $arg0 == sd && k.r == rKey && k.is == sd.InstrumentationScope()
+//@   assert@call InstrumentationScope#3 : !iOk
